@@ -95,6 +95,7 @@ package geojson
 //@   entry use rootGlobalsInit()
 //@   requires keys != nil && opts != nil
 //@   ensures Shape: okShape(result0, result1)
+//@   ensures C07Kind: result1 == nil ==> (isPointK(result0) || isSimplePointK(result0))
 //@   ensures RequireValid: result1 == nil && opts.RequireValid ==> oValidS(result0)
 
 // ---- coordinate parsers for lines and polygons: nested gjson.ForEach closures that append to captured slices; their
@@ -187,6 +188,7 @@ package geojson
 //@   entry use rootGlobalsInit()
 //@   requires keys != nil && opts != nil
 //@   ensures Shape: okShape(result0, result1)
+//@   ensures C07Kind: result1 == nil ==> (isFeatureK(result0) || isCircleK(result0))
 //@   ensures Kind: result0 != nil ==> rvOpen(result0)
 // RequireValid for this parser is NOT under contract: it needs a two-state frame argument (the validity of the
 // children parsed earlier is unchanged by the later writes to the fresh receiver); covered by the bounded suite only.
@@ -198,6 +200,7 @@ package geojson
 //@   entry use rootGlobalsInit()
 //@   requires keys != nil && opts != nil
 //@   ensures Shape: okShape(result0, result1)
+//@   ensures C07Kind: result1 == nil ==> (isMultiPointK(result0))
 //@   ensures Kind: result0 != nil ==> dyn(result0) == typeid(*MultiPoint)
 //@   ensures RequireValid: result1 == nil && opts.RequireValid ==> oValidS(result0)
 //@   call 0 iterstop err != nil && (forall c *collection :: old($alloc)[c] ==> (c.children == old(c.children) && c.extra == old(c.extra) && c.pempty == old(c.pempty) && c.prect == old(c.prect) && c.tree == old(c.tree))) && (forall e *extra :: old($alloc)[e] ==> e.members == old(e.members))
@@ -216,6 +219,7 @@ package geojson
 //@   entry use rootGlobalsInit()
 //@   requires keys != nil && opts != nil
 //@   ensures Shape: okShape(result0, result1)
+//@   ensures C07Kind: result1 == nil ==> (isMultiLineStringK(result0))
 //@   ensures RequireValid: result1 == nil && opts.RequireValid ==> oValidS(result0)
 
 //@ func parseJSONMultiPolygon
@@ -226,6 +230,7 @@ package geojson
 //@   entry use rootGlobalsInit()
 //@   requires keys != nil && opts != nil
 //@   ensures Shape: okShape(result0, result1)
+//@   ensures C07Kind: result1 == nil ==> (isMultiPolygonK(result0))
 //@   ensures RequireValid: result1 == nil && opts.RequireValid ==> oValidS(result0)
 
 //@ func parseJSONGeometryCollection
@@ -238,6 +243,7 @@ package geojson
 //@   entry use rootGlobalsInit()
 //@   requires keys != nil && opts != nil
 //@   ensures Shape: okShape(result0, result1)
+//@   ensures C07Kind: result1 == nil ==> (isGeometryCollectionK(result0))
 //@   ensures Kind: result0 != nil ==> rvOpen(result0)
 // RequireValid for this parser is NOT under contract: it needs a two-state frame argument (the validity of the
 // children parsed earlier is unchanged by the later writes to the fresh receiver); covered by the bounded suite only.
@@ -252,6 +258,7 @@ package geojson
 //@   entry use rootGlobalsInit()
 //@   requires keys != nil && opts != nil
 //@   ensures Shape: okShape(result0, result1)
+//@   ensures C07Kind: result1 == nil ==> (isFeatureCollectionK(result0))
 //@   ensures Kind: result0 != nil ==> rvOpen(result0)
 // RequireValid for this parser is NOT under contract: it needs a two-state frame argument (the validity of the
 // children parsed earlier is unchanged by the later writes to the fresh receiver); covered by the bounded suite only.
